@@ -187,6 +187,39 @@ def subscripts(s, table, st):
     return s
 
 
+def range_for(s, table, st):
+    """for (T x : CONTAINER) { body }  ->  for (size_t __ik = 0; __ik < SIZE(&(CONTAINER)); ++__ik) { CT x = GET(&(CONTAINER), __ik); body }
+    table: list of (container regex, size fn, get fn, C element type)"""
+    k = 0
+    pos = 0
+    pat = re.compile(r'\bfor\s*\(\s*([^:;()]+?)\s*\b(\w+)\s*:\s*')
+    while True:
+        m = pat.search(s, pos)
+        if not m:
+            return s
+        hdr_open = s.index('(', m.start())
+        pe = match(s, hdr_open, '(', ')')
+        cont = s[m.end():pe].strip()
+        ent = None
+        for rx, sizefn, getfn, cty in table:
+            if re.fullmatch(rx, cont):
+                ent = (sizefn, getfn, cty)
+                break
+        if ent is None:
+            raise ExtractError('range-for over %r has no container shim' % cont)
+        b0 = pe + 1
+        while s[b0].isspace():
+            b0 += 1
+        if s[b0] != '{':
+            raise ExtractError('range-for body without braces')
+        iv = '__i%d' % k
+        k += 1
+        new = 'for (size_t %s = 0; %s < %s(&(%s)); ++%s) { %s %s = %s(&(%s), %s);' % (iv, iv, ent[0], cont, iv, ent[2], m.group(2), ent[1], cont, iv)
+        s = s[:m.start()] + new + s[b0 + 1:]
+        bump(st, 'range-for')
+        pos = m.start() + len(new)
+
+
 def throws(s, ret_default, st, std_classes=('QuillError',)):
     """throw X{...};  ->  { g_exc = EXC_STD|EXC_OTHER; return <default>; }"""
     while True:
@@ -205,8 +238,7 @@ def throws(s, ret_default, st, std_classes=('QuillError',)):
         if s[k] != ';':
             raise ExtractError('throw expression not followed by ; near %r' % s[m.start():k + 10])
         kind = 'EXC_STD' if (cls in std_classes or cls.startswith('std::') or cls.endswith('Error') or cls.endswith('exception')) else 'EXC_OTHER'
-        rd = (' ' + ret_default) if ret_default else ''
-        s = s[:m.start()] + '{ g_exc = %s; return%s; }' % (kind, rd) + s[k + 1:]
+        s = s[:m.start()] + '{ g_exc = %s; __THROW__; }' % kind + s[k + 1:]
         bump(st, 'throw')
 
 
@@ -478,7 +510,7 @@ def insert_loop_contracts(body, loops, st):
                 # mark the position of that 'while' keyword so that it is not counted as a loop of its own
                 wpos = be + 1 + body[be + 1:].index('while')
                 skip_while_at.add(wpos)
-                found.append(('do', pe + 1))
+                found.append(('do', m.end()))     # CBMC: do <contract> { ... } while (c);
                 pos = m.end()
                 continue
             if kw == 'while' and pos in skip_while_at:
